@@ -38,6 +38,21 @@ Results corpus (every document is run through the extractor the router selects f
           white space, text, non-BMP/RTL/markup text, &#10;; caption paragraph: none, picture only, text, non-BMP/RTL/markup, with a
           text:sequence number.  quick: every pair of slots x every pair of their states (the other slots natural);
           thorough: the full product of the slots' states;
+  (pfile) the PICTURE STORAGE-NAME family (verif.props.c04_pics), 8 package formats (odt odp odg ods docx pptx xlsx epub): the document
+          [paragraph, picture] with the picture's package member - and every reference to it - named by each of 37 name lexemes
+          (34 for OOXML): upper-case / other-media / text / unknown / numeric / 200-letter suffix, no suffix, trailing dot, suffix only,
+          two suffixes, non-ASCII stem / suffix, and each of the 11 compression / alias suffixes of the platform MIME table (.gz .Z .bz2
+          .xz .br .svgz .tgz .taz .tz .tbz2 .txz) alone and stacked on .png; quick: the PNG payload; thorough: PNG, bytes of no picture
+          format, zero bytes;
+  (keys)  the PROPERTY-NAME family (verif.props.c04_keys), 13 formats with an open property namespace (html mhtml epub odt odp odg ods
+          docx pptx xlsx rtf eml mbox): the document [paragraph, every storable property with a plain value] plus one extra property whose
+          NAME is chosen by the file: every attribute name of every metadata class of the library (reflected: filename, file_extension,
+          file_path, folder_path, detected_encoding, title, ... 49 names) and 8 special names (methods / dunder attributes of the metadata
+          object, unknown names), spelled as is / upper-case / with hyphens, in every slot of the format (html: meta name / property /
+          http-equiv / itemprop, meta in the body; epub: OPF meta name / meta property / dc element, chapter meta; ODF: user-defined /
+          meta: / dc: element; OOXML: custom property, dc: / cp: core element, app.xml element; rtf: user property, info keyword;
+          mail: header field, X- header field); names the format defines itself in that slot are left out; quick: spelling as is
+          (html, mhtml: all three);
   (cs)    the CHARACTER-ENCODING family (verif.props.c04_charsets): html, mhtml with each of 27 declared charset labels (standard
           ones, 7-bit transfer forms, Python-specific codec names, non-text codecs, unknown, empty) x the ways a label reaches the
           reader (meta charset, meta http-equiv, byte-order mark; MIME part parameter), plain text (txt; thorough: md csv json) with
@@ -49,7 +64,8 @@ Results corpus (every document is run through the extractor the router selects f
 x path arguments {None, "a.ext", "dir/a.ext", "/abs/none/a.ext", an existing temp file, "ü ä.ext", "arch.zip!/d/a.ext",
   "", "."}  (mutants that are rejected with path None are not re-run with the other eight; fixture mutants: None only;
   quick: generated mutants with None, the temp file and the unicode name only; pic and cs families: None and the unicode name -
-  the path does not reach pictures or decoders; lab: None, thorough also the unicode name; doclines: None).
+  the path does not reach pictures or decoders; lab, pfile, keys: None, thorough also the unicode name;
+  doclines: None).
 
 On every result, and every unit / image / table reachable from it (iterate_units / iterate_images / iterate_tables,
 unit.get_images / unit.get_tables), the accessor alphabet - discovered by reflection from the Protocol classes
@@ -60,7 +76,8 @@ iterators exhausted, streams read to the end), and b's return value is judged ag
 A case is plain JSON: {"body": [...], "meta": {key: [value features]}, "mut": null | [kind, ...], "path": kind}
 (fmt = format; picture and picture-label families: + "pic": {"kind", "w", "h", "uid2", "title", "desc", "name", "cap"} with only the
 non-default components, body ["text", "img"];
-encoding family: + "cs": {"label", "form"}, body ["text"]) or {"file": fixture, "mut": ..., "path": kind}
+encoding family: + "cs": {"label", "form"}, body ["text"]; property-name family: + "key": {"name", "form", "sp"}, body ["text"], meta: every
+storable property []) or {"file": fixture, "mut": ..., "path": kind}
 (fmt = "fix-<extractor the router selects>"; line recombination: + "lines": [indices]).
 
 Oracle clauses (the clause name carries the object kind and accessor):
@@ -94,6 +111,7 @@ from verif.props import c04_corpus as K
 from verif.props import c04_pics as PX
 from verif.props import c04_charsets as CS
 from verif.props import c04_doctext as DT
+from verif.props import c04_keys as KY
 
 LEVEL = "exploration"
 RES_DIR = "/repo/sharepoint2text/tests/resources"
@@ -503,13 +521,18 @@ def materialise(fmt, case, seed):
     if any(k not in K.META_KEYS or any(f not in K.VALUE_FEATURES for f in v) for k, v in meta.items()):
         return None
     if case.get("pic") is not None:
-        if not PX.valid(fmt, case["pic"]) or meta or list(case.get("body") or []) != PIC_BODY or case.get("cs") is not None:
+        if (not PX.valid(fmt, case["pic"]) or meta or list(case.get("body") or []) != PIC_BODY or case.get("cs") is not None
+                or case.get("key") is not None):
             return None
         d = PX.build(fmt, case["pic"], K.Tokens(seed))
     elif case.get("cs") is not None:
-        if not CS.valid(fmt, case["cs"]) or meta or list(case.get("body") or []) != CS.CS_BODY:
+        if not CS.valid(fmt, case["cs"]) or meta or list(case.get("body") or []) != CS.CS_BODY or case.get("key") is not None:
             return None
         d = CS.build(fmt, case["cs"], K.Tokens(seed))
+    elif case.get("key") is not None:
+        if not KY.valid(fmt, case["key"]) or list(case.get("body") or []) != KY.KEY_BODY or meta != {k: [] for k in K.META_CAPS.get(fmt, ())}:
+            return None
+        d = KY.build(fmt, case["key"], K.Tokens(seed))
     else:
         d = K.build(fmt, case.get("body") or [], meta, seed)
     data = d["data"]
@@ -580,10 +603,15 @@ def shrinks(case):
             if cs[k] != dflt[k]:
                 yield dict(case, cs=dict(cs, **{k: dflt[k]}))
         return
+    if case.get("key") is not None:
+        # towards the plain spelling; name and slot are the identity of the case
+        if case["key"].get("sp", "asis") != "asis":
+            yield dict(case, key={k: v for k, v in case["key"].items() if k != "sp"})
+        return
     if case.get("pic") is not None:
         # towards the ordinary picture: each component of the description back to its default (PNG, natural size, one UID, natural labels)
         pic = case["pic"]
-        for k in ("uid2", "h", "w", "kind") + PX.LAB_SLOTS:
+        for k in ("uid2", "h", "w", "kind", "file") + PX.LAB_SLOTS:
             if k in pic and pic[k] != PX.DEFAULT[k]:
                 yield dict(case, pic={a: b for a, b in pic.items() if a != k})
         return
@@ -619,6 +647,11 @@ def embeds(small, big):
         return small["file"] == big["file"] or bool(small.get("mut"))
     if (small.get("pic") is None) != (big.get("pic") is None) or (small.get("cs") is None) != (big.get("cs") is None):
         return False
+    if (small.get("key") is None) != (big.get("key") is None):
+        return False
+    if small.get("key") is not None:
+        sk, bk = dict(KY.DEFAULT, **small["key"]), dict(KY.DEFAULT, **big["key"])
+        return sk["name"] == bk["name"] and sk["form"] == bk["form"] and (sk["sp"] == "asis" or sk["sp"] == bk["sp"])
     if small.get("cs") is not None:
         dflt = CS.default("txt" if small["cs"]["form"] == "sig" else "html")
         return all(big["cs"].get(k) == v for k, v in small["cs"].items() if v != dflt[k])
@@ -730,6 +763,10 @@ def documents(tier):
             out.append((fmt, {"body": list(PIC_BODY), "meta": {}, "mut": None, "pic": pic}, "pic", PIC_PATHS))
         for pic in PX.label_cases(tier, fmt):
             out.append((fmt, {"body": list(PIC_BODY), "meta": {}, "mut": None, "pic": pic}, "lab", ["none"] if tier == "quick" else PIC_PATHS))
+        for pic in PX.file_cases(tier, fmt):
+            out.append((fmt, {"body": list(PIC_BODY), "meta": {}, "mut": None, "pic": pic}, "pfile", ["none"] if tier == "quick" else PIC_PATHS))
+        for key in KY.cases(tier, fmt):
+            out.append((fmt, {"body": list(KY.KEY_BODY), "meta": {k: [] for k in keys}, "mut": None, "key": key}, "keys", ["none"] if tier == "quick" else PIC_PATHS))
         for cs in CS.cases(tier, fmt):
             out.append((fmt, {"body": list(CS.CS_BODY), "meta": {}, "mut": None, "cs": cs}, "cs", PIC_PATHS))
     for rel in fixture_files():
@@ -847,6 +884,11 @@ def run(ctx):
                       "size_pairs": "quick: kind x {natural, (zero, zero)} + png x {(l, ok), (ok, l), (l, l)}; thorough: kind x pair forms + png x all pairs",
                       "label_formats": list(PX.LAB_FORMATS), "label_slots": {f: PX.labels_of(f) for f in PX.LAB_FORMATS},
                       "label_combinations": "quick: every pair of slots x every pair of their states; thorough: full product of the slots' states",
+                      "picture_file_formats": list(PX.FILE_FORMATS), "picture_file_names": {k: (v if v is None or len(v) < 40 else v[:12] + "...(%d chars)" % len(v))
+                                                                                               for k, v in PX.FILES.items()},
+                      "picture_file_kinds": "quick: png; thorough: " + " ".join(PX.FILE_KINDS_THOROUGH),
+                      "property_name_formats": list(KY.KEY_FORMATS), "property_name_forms": {f: list(v) for f, v in KY.FORMS.items()},
+                      "property_names": KY.names(), "property_name_spellings": "quick: asis (html, mhtml: asis upper hyphen); thorough: asis upper hyphen",
                       "charset_labels": sorted(CS.LABELS), "charset_forms": {"html": list(CS.HTML_FORMS), "mhtml": list(CS.MHTML_FORMS),
                                                                               "plain": sorted(CS.SIGS)},
                       "position_modifiers": sorted(K.UNI_POS), "doc_lines": DT.MAX_LINES,
@@ -855,7 +897,7 @@ def run(ctx):
                    "every single-deviation byte mutation (16 truncations, 64 offsets x XOR {0xFF, 0x01, 0x20}, 3 parts x 64 offsets x XOR "
                    "{0x01, 0x20} inside ZIP packages; quick: every 2nd / 4th, no 0x20, one part) of the small document per format (thorough: also of "
                    "every fixture, quick: of the .doc/.msg fixtures) x 9 path arguments; plus the picture family (payload kind x frame size "
-                   "lexemes, 11 formats), the picture-label family (states of the title / description / name / caption slots, 8 formats), the character-encoding family (charset label x declaration form; html, mhtml, plain text) and the "
+                   "lexemes, 11 formats), the picture-label family (states of the title / description / name / caption slots, 8 formats), the picture storage-name family (member name lexemes, 8 package formats), the property-name family (reflected metadata attribute names x open-namespace slots, 13 formats), the character-encoding family (charset label x declaration form; html, mhtml, plain text) and the "
                    ".doc line-recombination family (see bounds; 2 resp. 1 path arguments); on every result / unit / image / table "
                    "each accessor of the reflected alphabet once and then all ordered pairs; evaluations = (document, path) "
                    "extractions; distinct_nontrivial = distinct (result classes, #results, #units, #images, #tables, failing "
